@@ -7,8 +7,9 @@ use libpna::*;
 use rand::Rng;
 use serde_json::json;
 
-const NAMES: [&str; 16] = ["a.txt", "b b.txt", "dir/a.txt", "dir/ü n.bin", "dir/sub/d.txt", "e", "[x].txt", "st*r.dat", "q?.md", "dir/sub/deep/er/f", "日本/語.txt", "tab\tname", "dir2/only", "Z", "a.txt.bak", "dir/sub/e"];
-const PATTERNS: [&str; 12] = ["*.txt", "dir/*", "**/*.txt", "a.txt", "dir/sub/**", "nomatch*", "*", "dir/**", "e", "\\[x\\].txt", "?", "dir2/*"];
+const NAMES: [&str; 18] = ["a.txt", "b b.txt", "dir/a.txt", "dir/ü n.bin", "dir/sub/d.txt", "e", "[x].txt", "st*r.dat", "q?.md", "dir/sub/deep/er/f", "日本/語.txt", "tab\tname", "dir2/only", "Z", "a.txt.bak", "dir/sub/e", "notes{1}.md", "dir/{x}"];
+const PATTERNS: [&str; 20] = ["*.txt", "dir/*", "**/*.txt", "a.txt", "dir/sub/**", "nomatch*", "*", "dir/**", "e", "\\[x\\].txt", "?", "dir2/*",
+    "{a.txt,e}", "dir/{a.txt,sub/d.txt}", "st\\*r.dat", "notes\\{1\\}.md", "dir/sub/{d.txt,e}", "{Z,dir2/only}", "dir/\\{x\\}", "q\\?.md"];
 
 fn gen_archive(rng: &mut rand_chacha::ChaCha8Rng, cfg: &Cfg, allow_dups: bool) -> (Vec<u8>, serde_json::Value) {
     let n = rng.gen_range(0..7);
@@ -118,6 +119,17 @@ pub fn list(ctx: &mut Ctx) {
             match fmt {
                 "plain" | "tree" => {
                     ctx.case(json!({"fmt":fmt,"rows":rows.len()}), format!("list {fmt} {} {} {sel_wire} {wire}", solid_flag as u8, classify as u8), format!("ok {}", hexw(&r.stdout)), !rows.is_empty());
+                    if fmt == "tree" && shown.iter().all(|(_, e)| !e.name.contains('\n')) {
+                        // every shown entry appears in the tree (independent of the model's rendering)
+                        let text = String::from_utf8_lossy(&r.stdout).to_string();
+                        let lines: Vec<String> = text.lines().map(|l| l.trim_end_matches(['/', '@', '*']).to_string()).collect();
+                        for (_, e) in &shown {
+                            let base = e.name.rsplit('/').next().unwrap_or("");
+                            if !base.is_empty() && !lines.iter().any(|l| l.ends_with(base)) {
+                                ctx.violation("C17", "an entry reported by the library (and selected by the patterns) is missing from the tree listing", json!({"case":attrs,"entry":e.name,"kind":e.kind}));
+                            }
+                        }
+                    }
                     if fmt == "plain" {
                         let text = String::from_utf8_lossy(&r.stdout).to_string();
                         let lines: Vec<&str> = text.split('\n').filter(|l| !l.is_empty()).collect();
